@@ -5108,14 +5108,21 @@ class PyCdlib:
                 # directory, there is now the chance of a name collision (this
                 # can't happen without relocation since _add_child_to_dr() below
                 # won't allow duplicate names).  Check for that here and
-                # generate a new name.
+                # generate a new name.  The new name has to obey the length
+                # limit of the interchange level like the original one (8
+                # characters at level 1, 207 otherwise), so the original name
+                # is shortened to make room for the suffix if necessary.
+                maxlen = 207
+                if self.interchange_level == 1:
+                    maxlen = 8
                 index = 0
                 while True:
                     for child in self._rr_moved_record.children:
                         if child.file_ident == iso9660_name:
                             # Python 3.4 doesn't support substitution with a byte
                             # array, so we do it as a string and encode to bytes.
-                            iso9660_name = name + ('%03d' % (index)).encode()
+                            suffix = ('%03d' % (index)).encode()
+                            iso9660_name = name[:maxlen - len(suffix)] + suffix
                             index += 1
                             break
                     else:
